@@ -1,4 +1,5 @@
 """C16 — polygon and multipatch constructors close and orient rings, losing no vertex (E3 + E1 + E2 polynomials)."""
+import re
 from .. import absint, mir, util
 from ..absint import is_agg, agg_field
 
@@ -60,9 +61,7 @@ def run(ctx):
                          "divided by a positive constant, and 'negative => inner' (zero is don't-care)", floor=2)
     ctx.rule("C16.patch", "Multipatch::with_parts closes exactly the four ring kinds and leaves triangle strips and fans untouched", floor=6)
     cr = None
-    for f in F.identity_fns():
-        if f["def"].endswith("::close_and_reorder") and "PolygonRing" in f["def"]:
-            cr = f
+    closed_defs = set(g["def"] for g in util.closedness_fns(F))
     # role-based discovery: the fn item handed to for_each in with_rings
     wr = F.inherent_method("record::polygon::GenericPolygon", "with_rings")
     if not wr:
@@ -100,7 +99,7 @@ def run(ctx):
             if not okloop:
                 good = False
                 why.append("no pass over all rings that hands each ring to one closing/orienting function before the box is folded")
-            if not is_agg(p.ret) or agg_field(p.ret, 'rings') is None:
+            if not is_agg(p.ret) or len(p.ret[4]) < 2:
                 good = False
             continue
         if len(cons_i) != 1:
@@ -121,7 +120,7 @@ def run(ctx):
         if loops_i and cons_i[0] > min(loops_i):
             good = False
             why.append("the box is folded before the rings are closed and oriented")
-        if not is_agg(p.ret) or agg_field(p.ret, 'rings') is None:
+        if not is_agg(p.ret) or len(p.ret[4]) < 2:
             good = False
     ctx.ob("C16.route", "with_rings", good, "; ".join(sorted(set(why))) or "for_each(%s) over iter_mut() of all rings, then the box, then Self{..}" % closer,
            site=ctx.site_of(F, fwr["def"]), key="C16.route|with_rings")
@@ -133,10 +132,11 @@ def run(ctx):
         good = bool(ps)
         for p in ps:
             cs = [(e[2] or e[1]) for e in p.eff if e[0] == 'call']
-            names = [c.split('::')[-1] for c in cs]
-            if names != ['close_and_reorder', 'with_rings']:
+            strip = lambda x: re.sub(r'::<[^<>]*(<[^<>]*>)?[^<>]*>', '', x)
+            names = [strip(c) for c in cs]
+            if names != [strip(closer or '?'), strip(fwr["def"])]:
                 good = False
-        ctx.ob("C16.route", "new", good, "new = close_and_reorder(ring); with_rings(vec![ring])", site=ctx.site_of(F, nw[0]["def"]),
+        ctx.ob("C16.route", "new", good, "new = <ring normaliser>(ring); with_rings(vec![ring])", site=ctx.site_of(F, nw[0]["def"]),
                key="C16.route|new")
     else:
         ctx.missing("C16.route", "GenericPolygon::new")
@@ -156,7 +156,7 @@ def run(ctx):
     for p in ps:
         closed = None
         for t, v in p.cons:
-            if t[0] == 'app' and t[1].endswith('is_part_closed'):
+            if t[0] == 'app' and re.sub(r'::<[^<>]*>', '', t[1]) in closed_defs:
                 closed = (v != 0) if isinstance(v, int) else True
             # closedness decided inline: only a full-point equality of first and last counts
             if t[0] == 'bin' and t[1] in ('Eq', 'Ne') and t[4] == 'partial_eq' and 'first' in absint.term_str(t) and 'last' in absint.term_str(t):
@@ -224,7 +224,7 @@ def run(ctx):
     ctx.ob("C16.table", "closing before orienting", order_ok, "push precedes reverse and the orientation sum is taken over the closed ring",
            site=csite, key="C16.table|order")
     # is_part_closed
-    ipc = [f for f in F.identity_fns() if f["def"].endswith("::is_part_closed")]
+    ipc = util.closedness_fns(F)
     if ipc:
         ps, _ = util.run_fn(F, ipc[0], summarise_pure=False)
         good = bool(ps)
@@ -241,7 +241,7 @@ def run(ctx):
     else:
         ctx.ob("C16.close", "is_part_closed", True, "closedness test inlined (checked through the push guard)", trivial=True)
     # --- area -----------------------------------------------------------------------------------
-    rt = [f for f in F.identity_fns() if f["def"].endswith("ring_type_from_points_ordering")]
+    rt = util.orientation_fns(F)
     if not rt:
         ctx.missing("C16.area", "orientation function")
     else:
